@@ -29,6 +29,8 @@ from harness import circ_sim
 from harness.c16_util import deep_eq, shared_mutables
 from harness.common import Check
 
+# the three defects found by this check and fixed in /repo (15423cf, 8f3ffc9,
+# c6a0f46); re-observing one is a VIOLATION with the object as input
 WHAT = {
     'eq-hash:CouplingGraph:set-order':
         'CouplingGraph.__hash__ hashes tuple(self._edges), the iteration '
@@ -71,7 +73,11 @@ def same_unitary(u, v, tol=1e-12):
 
 
 def snapshot(sim, c):
-    return (sim.circ_text(c), sim.views(c), tuple(float(p) for p in c.params))
+    try:
+        return (sim.circ_text(c), sim.views(c),
+                tuple(float(p) for p in c.params))
+    except Exception as e:      # a corrupted circuit: read accessors raise
+        return ('SNAPSHOT-RAISES', type(e).__name__)
 
 
 def compare_circuits(sim, x, y, tag, fields=True):
@@ -301,6 +307,7 @@ def circ_worker(args):
     alpha = circ_sim.Alphabet()
     wl = whitelist()
     out = []
+    pool = []
     for i in range(start, start + count):
         seed = circ_sim.seed_of(base, i)
         signal.setitimer(signal.ITIMER_PROF, budget)
@@ -314,6 +321,20 @@ def circ_worker(args):
             rec = circuit_case(sim, x, random.Random(seed ^ 0x5a5a), wl)
             rec.update(i=i, seed=seed, calls=sim.calls[-30:],
                        nblocks=count_blocks(rec['ct']))
+            # equality must separate circuits of different shape
+            for other, oseed in pool:
+                if (x == other or other == x) and (
+                        tuple(x.radixes) != tuple(other.radixes)
+                        or not same_unitary(unitary_of(x),
+                                            unitary_of(other), 1e-9)):
+                    rec['problems'].append((
+                        'eq-unsound:Circuit:num_qudits'
+                        if tuple(x.radixes) != tuple(other.radixes)
+                        else 'eq-unsound:Circuit',
+                        f'the final circuits of histories {seed} and {oseed} '
+                        'compare equal but differ in radixes or unitary'))
+            pool.append((x, seed))
+            del pool[:-6]
             out.append(rec)
         except (CaseTimeout, MemoryError, RecursionError) as e:
             out.append({'i': i, 'seed': seed, 'timeout': type(e).__name__})
@@ -773,6 +794,430 @@ def part_objects(ck: Check, n: int):
         value_case(ck, 'StateSystem', f'StateSystem{rad}x{k}', ss, wl,
                    has_eq=False, has_hash=False,
                    unitary=lambda o: np.array(o.target))
+
+
+# ============================================================ equality / hash
+def key_roundtrip(x, y) -> list[str]:
+    """`x == y` must make them interchangeable as dict / set keys."""
+    bad = []
+    try:
+        if hash(x) != hash(y):
+            bad.append('hash')
+        if {x: 1}.get(y) != 1 or {y: 1}.get(x) != 1:
+            bad.append('dict-key')
+        if y not in {x} or x not in {y} or len({x, y}) != 1:
+            bad.append('set-member')
+    except Exception as e:
+        bad.append('raises ' + repr(e)[:80])
+    return bad
+
+
+def part_equality(ck: Check, n: int):
+    """Equal => equal hash => usable as key after a round trip, and equality
+    separates what differs: CouplingGraph, MachineModel parts, CircuitGate,
+    Circuit."""
+    from bqskit.compiler.machine import MachineModel
+    from bqskit.ir.circuit import Circuit
+    from bqskit.ir.gates import CircuitGate, HGate, XGate
+    from bqskit.qis.graph import CouplingGraph
+    from harness import c16_gates
+    rng = ck.rng
+    sim = circ_sim.Sim(circ_sim.Alphabet(), rng)
+    mlines: list[tuple[str, str, dict]] = []     # (line, real verdict, replay)
+
+    def block_txt(cg):
+        return (','.join(map(str, cg.radixes)) + ' '
+                + ('+'.join(sim.op_text(o) for o in cg._circuit) or '-'))
+    # ---- CouplingGraph: every listing of one edge set is the same key
+    for i in range(n):
+        nq = rng.randint(2, 12)
+        edges = rand_graph(rng, nq, rng.choice([0.15, 0.4, 0.8]))
+        if not edges:
+            continue
+        ck.count(('eq-graph', nq, tuple(edges)))
+        ck.bump('equality_cases', 'CouplingGraph')
+        g = CouplingGraph(edges, nq)
+        variants = []
+        for _ in range(3):
+            e2 = [(b, a) if rng.random() < 0.5 else (a, b) for a, b in edges]
+            rng.shuffle(e2)
+            variants.append(('relisted', CouplingGraph(e2 + e2[:2], nq)))
+        variants.append(('pickle', pickle.loads(pickle.dumps(g))))
+        variants.append(('deepcopy', copy.deepcopy(g)))
+        variants.append(('ctor', CouplingGraph(g)))
+        variants.append(('MachineModel-pickle', pickle.loads(pickle.dumps(
+            MachineModel(nq, g))).coupling_graph))
+        for how, h in variants:
+            bad = [] if (g == h and h == g) else ['==']
+            bad += key_roundtrip(g, h)
+            if how == 'relisted':
+                flat = lambda gr: ','.join(f'{a},{b}' for a, b in gr)  # noqa
+                mlines.append((f'graphhash {nq} {flat(g)} | {flat(h)}',
+                               str(hash(g) == hash(h)).lower(),
+                               {'edges': edges, 'num_qudits': nq}))
+            if bad:
+                ck.violation(
+                    'eq-hash:CouplingGraph:set-order' if 'hash' in bad
+                    and '==' not in bad else f'eq-hash:CouplingGraph:{how}',
+                    WHAT['eq-hash:CouplingGraph:set-order'] if 'hash' in bad
+                    and '==' not in bad else
+                    f'the same edge set ({how}) is not the same key: '
+                    + ','.join(bad),
+                    {'edges': edges, 'num_qudits': nq, 'variant': how,
+                     'variant_edges': sorted(h)})
+        # a different edge set / size is a different graph
+        others = [CouplingGraph(edges, nq + 1)]
+        if len(edges) > 1:
+            others.append(CouplingGraph(edges[:-1], nq))
+        extra = [(a, b) for a in range(nq) for b in range(a + 1, nq)
+                 if (a, b) not in edges]
+        if extra:
+            others.append(CouplingGraph(edges + [rng.choice(extra)], nq))
+        for h in others:
+            if g == h or h == g:
+                ck.violation('eq-unsound:CouplingGraph', 'graphs with '
+                             'different edges or sizes compare equal',
+                             {'edges': edges, 'num_qudits': nq,
+                              'other': sorted(h),
+                              'other_n': h.num_qudits})
+    # ---- CircuitGate and Circuit: equality is the whole operation sequence
+    for i in range(n):
+        rad = rng.choice([(2,), (2, 2), (2, 3), (3, 2, 2), (2, 2, 2)])
+        seed = rng.randrange(10 ** 9)
+        c = c16_gates.small_circuit(random.Random(seed), rad,
+                                    rng.randint(1, 4), rng.random() < 0.3)
+        if c.num_operations == 0:
+            continue
+        ck.count(('eq-circuit', rad, seed))
+        ck.bump('equality_cases', 'CircuitGate+Circuit')
+        same = c16_gates.small_circuit(random.Random(seed), rad, 0)
+        for op in c:       # same structure, other parameters
+            same.append_gate(op.gate, op.location,
+                             [p + 0.25 for p in op.params])
+        shorter = c.copy()
+        shorter.pop()
+        longer = c.copy()
+        q = rng.randrange(len(rad))
+        longer.append_gate(HGate(rad[q]), q)
+        wider = Circuit(len(rad) + 1, list(rad) + [2])
+        for op in c:
+            wider.append(copy.deepcopy(op))
+        otherrad = None
+        if 2 in rad:
+            r2 = list(rad)
+            k = r2.index(2)
+            if not any(k in op.location for op in c):
+                r2[k] = 3
+                otherrad = Circuit(len(rad), r2)
+                for op in c:
+                    otherrad.append(copy.deepcopy(op))
+        empty = Circuit(len(rad), list(rad))
+        replay = {'circuit_seed': seed, 'radixes': rad,
+                  'circuit': repr(c)[:400]}
+        g = CircuitGate(c)
+        # -- CircuitGate: equal cases
+        for how, h in (('rebuilt', CircuitGate(c.copy())),
+                       ('pickle', pickle.loads(pickle.dumps(g))),
+                       ('other-params', CircuitGate(same)),
+                       ('from-pickled-circuit',
+                        CircuitGate(pickle.loads(pickle.dumps(c))))):
+            bad = [] if (g == h and h == g and not (g != h)) else ['==']
+            bad += key_roundtrip(g, h)
+            pt = sample_params(g.num_params, rng)[1]
+            if int(np.prod(rad)) <= 64 and not same_unitary(
+                    gate_unitary(g, pt), gate_unitary(h, pt), 1e-10):
+                bad.append('unitary')
+            mlines.append((f'eqblock {block_txt(g)} | {block_txt(h)}',
+                           str(bool(g == h)).lower(), replay))
+            if bad:
+                ck.violation(f'eq-hash:CircuitGate:{how}', 'CircuitGates of '
+                             f'the same operation sequence ({how}) differ '
+                             'in ' + ','.join(bad), replay)
+        # -- CircuitGate: unequal cases
+        for how, oc in (('prefix', shorter), ('extension', longer),
+                        ('empty', empty)):
+            h = CircuitGate(oc)
+            mlines.append((f'eqblock {block_txt(g)} | {block_txt(h)}',
+                           str(bool(g == h)).lower(), replay))
+            if g == h or h == g or not (g != h):
+                sig = 'eq-hash:CircuitGate:prefix'
+                ck.violation(sig, WHAT[sig], {**replay, 'other': how,
+                                              'other_circuit': repr(oc)[:300]})
+        # -- Circuit: equal and unequal cases
+        pc = pickle.loads(pickle.dumps(c))
+        if not (c == pc and pc == c) or c != c.copy():
+            ck.violation('circuit-eq:copy', 'a circuit differs from its '
+                         'copy / pickle image', replay)
+        try:
+            hash(c)
+            ck.violation('circuit-hashable', 'Circuit defines __eq__ and a '
+                         'hash: equal circuits would need equal hashes',
+                         replay)
+        except TypeError:
+            pass
+        for how, oc in (('wider', wider), ('other-radix', otherrad),
+                        ('shorter', shorter), ('longer', longer),
+                        ('other-params', same if c.num_params else None)):
+            if oc is None:
+                continue
+            mlines.append((f'eqcirc {sim.circ_text(c)} | {sim.circ_text(oc)}',
+                           str(bool(c == oc)).lower(), replay))
+            if c == oc or oc == c or not (c != oc):
+                sig = ('eq-unsound:Circuit:num_qudits'
+                       if how in ('wider', 'other-radix')
+                       else f'eq-unsound:Circuit:{how}')
+                ck.violation(sig, WHAT.get(sig) or 'circuits that differ ('
+                             + how + ') compare equal',
+                             {**replay, 'other': how,
+                              'other_circuit': repr(oc)[:300]})
+        mlines.append((f'eqcirc {sim.circ_text(c)} | {sim.circ_text(pc)}',
+                       str(bool(c == pc)).lower(), replay))
+    # the same verdicts from the model of the fixed __eq__/__hash__
+    outs = ck.driver('pickle', [m[0] for m in mlines])
+    for (line, real, replay), mo in zip(mlines, outs):
+        ck.bump('traces_validated_against_impl')
+        if mo == 'bad-op':
+            raise RuntimeError('driver rejected ' + line[:300])
+        if mo != real:
+            kind = line.split()[0]
+            ck.violation(f'{kind}-correspondence', f'{kind}: implementation '
+                         f'says {real}, model of __eq__/__hash__ says {mo}',
+                         {**replay, 'line': line, 'impl': real, 'model': mo,
+                          'broken': 'correspondence pickle ' + kind},
+                         found_input=False)
+
+
+# =========================================================== sharing (part G)
+def internal_dups(c) -> list[str]:
+    """an Operation object must occupy exactly the cells of its location in
+    one cycle (the same object placed twice is edited twice)"""
+    where: dict[int, list] = {}
+    for k in range(c.num_cycles):
+        for q in range(c.num_qudits):
+            if not c.is_point_idle((k, q)):
+                op = c[k, q]
+                where.setdefault(id(op), [op, []])[1].append((k, q))
+    bad = []
+    for op, cells in where.values():
+        if len({k for k, _ in cells}) != 1 or \
+                sorted(q for _, q in cells) != sorted(op.location):
+            bad.append(f'{op!r} at {cells}')
+    return bad
+
+
+def part_sharing(ck: Check, n: int):
+    """Every public call that builds a circuit from another one must leave
+    the two without a shared Operation / list / dict (gates may be shared:
+    they are values), and editing one must not change the other.  Also a few
+    passes that need no runtime: the output holds no operation twice and
+    shares nothing mutable with the pass data."""
+    import asyncio
+    from bqskit.compiler.passdata import PassData
+    from bqskit.ir.circuit import Circuit
+    from bqskit.ir.gate import Gate
+    from bqskit.ir.gates import CircuitGate
+    from bqskit.ir.structure import CircuitStructure
+    from harness import c16_gates
+    rng = ck.rng
+    alpha = circ_sim.Alphabet()
+    sim = circ_sim.Sim(alpha, rng)
+    wl = whitelist() + (Gate,)
+
+    def pts_of(c):
+        return [(k, q) for k in range(c.num_cycles)
+                for q in range(c.num_qudits) if not c.is_point_idle((k, q))]
+
+    for i in range(n):
+        rad = rng.choice([(2, 2), (2, 3, 2), (2, 2, 2), (3, 2, 2, 3)])
+        seed = rng.randrange(10 ** 9)
+        src = c16_gates.small_circuit(random.Random(seed), rad, 4,
+                                      rng.random() < 0.5)
+        if src.num_operations < 2:
+            continue
+        nq = len(rad)
+        ck.count(('sharing', rad, seed))
+        ck.bump('sharing_cases')
+        ident = list(range(nq))
+
+        def k_append_circuit():
+            r = Circuit(nq, list(rad))
+            r.append_circuit(src, ident)
+            return r
+
+        def k_insert_circuit():
+            r = k_append_circuit()
+            r.insert_circuit(rng.randint(0, r.num_cycles), src, ident)
+            return r
+
+        def k_extend_iter():      # the documented way to re-append operations
+            r = Circuit(nq, list(rad))
+            r.extend(copy.deepcopy(op) for op in src)
+            return r
+
+        def k_slice():
+            return src.get_slice(rng.sample(pts_of(src), 2))
+
+        def k_region():
+            p = rng.choice(pts_of(src))
+            reg = src.surround(p, min(2, nq))
+            return src.get_slice(reg.points)
+
+        def k_block():
+            r = Circuit(nq, list(rad))
+            r.append_circuit(src, ident, True)
+            return r
+
+        def k_block_unfolded():
+            r = k_block()
+            r.unfold((0, 0))
+            return r
+
+        def k_gate_circuit():
+            return CircuitGate(src)._circuit
+
+        def k_replace_with():
+            r = k_block()
+            r.replace_with_circuit((0, 0), src)
+            return r
+
+        kinds = [
+            ('copy', lambda: src.copy()),
+            ('become', lambda: (lambda r: (r.become(src), r)[1])(Circuit(1))),
+            ('pickle', lambda: pickle.loads(pickle.dumps(src))),
+            ('append_circuit', k_append_circuit),
+            ('insert_circuit', k_insert_circuit),
+            ('extend', k_extend_iter),
+            ('add', lambda: src + src), ('mul', lambda: src * 2),
+            ('radd', lambda: src.__radd__(src)),
+            ('get_slice', k_slice), ('surround+get_slice', k_region),
+            ('get_inverse', lambda: src.get_inverse()),
+            ('from_operation', lambda: Circuit.from_operation(
+                next(iter(src)))),
+            ('as_circuit_gate', k_block), ('unfold', k_block_unfolded),
+            ('CircuitGate', k_gate_circuit),
+            ('replace_with_circuit', k_replace_with),
+        ]
+        for kind, f in kinds:
+            before = snapshot(sim, src)
+            try:
+                r = f()
+            except (ValueError, IndexError) as e:
+                ck.bump('sharing_skipped', kind)
+                continue
+            ck.bump('sharing_calls', kind)
+            replay = {'circuit_seed': seed, 'radixes': rad, 'call': kind,
+                      'circuit': sim.circ_text(src)}
+            sh = shared_mutables(src, r, wl)
+            if sh:
+                ck.violation(f'circuit-shares:{kind}', f'{kind}: source and '
+                             'result share mutable objects: '
+                             + '; '.join(sh[:3]), replay)
+            dups = internal_dups(r)
+            if dups:
+                ck.violation(f'operation-placed-twice:{kind}', dups[0],
+                             replay)
+            rb = None
+            mutate_battery(sim, r, rng)
+            if snapshot(sim, src) != before:
+                ck.violation(f'circuit-alias:{kind}', f'{kind}: editing the '
+                             'result changed the source', replay)
+            try:
+                r = f()
+                rb = snapshot(sim, r)
+                clone = pickle.loads(pickle.dumps(src))
+            except (ValueError, IndexError):
+                continue
+            # edit a clone's twin: the source itself is reused by other kinds
+            src2 = src
+            src = clone
+            try:
+                r2 = f()
+                rb = snapshot(sim, r2)
+                mutate_battery(sim, clone, rng)
+                if snapshot(sim, r2) != rb:
+                    ck.violation(f'circuit-alias:{kind}', f'{kind}: editing '
+                                 'the source changed the result', replay)
+            except (ValueError, IndexError):
+                pass
+            finally:
+                src = src2
+        # batch_pop: popped sub-circuit vs. what remains
+        cc = src.copy()
+        try:
+            sub = cc.batch_pop(rng.sample(pts_of(cc), 2))
+            sh = shared_mutables(cc, sub, wl)
+            if sh:
+                ck.violation('circuit-shares:batch_pop', '; '.join(sh[:3]),
+                             {'circuit_seed': seed})
+            b = snapshot(sim, cc)
+            mutate_battery(sim, sub, rng)
+            if snapshot(sim, cc) != b:
+                ck.violation('circuit-alias:batch_pop', 'editing the popped '
+                             'sub-circuit changed the circuit',
+                             {'circuit_seed': seed})
+        except (ValueError, IndexError):
+            pass
+        # read-only consumers leave the source alone
+        b = snapshot(sim, src)
+        CircuitStructure(src)
+        hash(CircuitGate(src))
+        src.get_unitary() if int(np.prod(rad)) <= 64 else None
+        if snapshot(sim, src) != b:
+            ck.violation('circuit-alias:read-only', 'CircuitStructure / '
+                         'CircuitGate / get_unitary changed the circuit',
+                         {'circuit_seed': seed})
+    # ---- passes that run without a runtime
+    from bqskit.ir.gates import CNOTGate, CZGate, HGate, U3Gate
+    from bqskit.passes import (CNOTToCZPass, CompressPass,
+                               FillSingleQuditGatesPass,
+                               GreedyPartitioner, GroupSingleQuditGatePass,
+                               QuickPartitioner, ScanPartitioner, UnfoldPass)
+    for i in range(max(3, n // 4)):
+        c = Circuit(4)
+        r2 = random.Random(rng.randrange(10 ** 9))
+        for _ in range(10):
+            if r2.random() < 0.5:
+                a, b_ = r2.sample(range(4), 2)
+                c.append_gate(CNOTGate(), (a, b_))
+            else:
+                c.append_gate(r2.choice([HGate(), U3Gate()]), r2.randrange(4),
+                              None if False else [])
+        c.set_params([r2.uniform(-3, 3) for _ in range(c.num_params)])
+        for mk in (lambda: [CNOTToCZPass()], lambda: [CompressPass()],
+                   lambda: [FillSingleQuditGatesPass()],
+                   lambda: [GroupSingleQuditGatePass()],
+                   lambda: [QuickPartitioner(3)],
+                   lambda: [ScanPartitioner(3)],
+                   lambda: [GreedyPartitioner(3)],
+                   lambda: [QuickPartitioner(2), UnfoldPass()],
+                   lambda: [ScanPartitioner(3), FillSingleQuditGatesPass(),
+                            UnfoldPass(), CompressPass()]):
+            passes = mk()
+            name = '+'.join(type(p).__name__ for p in passes)
+            work = c.copy()
+            data = PassData(work)
+            data['in'] = c
+            try:
+                for p in passes:
+                    asyncio.run(p.run(work, data))
+            except Exception as e:      # not this property's business
+                ck.bump('passes_skipped', name + ':' + type(e).__name__)
+                continue
+            ck.bump('pass_runs', name)
+            ck.count(('pass', name, i))
+            dups = internal_dups(work)
+            sh = shared_mutables(work, data, wl) + shared_mutables(work, c,
+                                                                   wl)
+            if dups or sh:
+                ck.violation(f'pass-output-shares:{name}',
+                             f'{name}: ' + '; '.join((dups + sh)[:3]),
+                             {'pass': name, 'circuit': sim.circ_text(c)})
+            b = snapshot(sim, c)
+            mutate_battery(sim, work, rng)
+            if snapshot(sim, c) != b:
+                ck.violation(f'pass-output-alias:{name}', 'editing the '
+                             'output changed the input circuit',
+                             {'pass': name})
 
 
 # ===================================================================== part D
@@ -1515,8 +1960,10 @@ def _run(ck: Check):
     timed('witnesses', part_witnesses, ck)
     timed('gates', part_gates, ck)
     timed('objects', part_objects, ck, 800 if thorough else 24)
+    timed('equality', part_equality, ck, 600 if thorough else 40)
     timed('passdata', part_passdata, ck, 400 if thorough else 10)
     timed('workflows', part_workflows, ck)
+    timed('sharing', part_sharing, ck, 150 if thorough else 12)
     timed('malformed', part_malformed, ck, 10000 if thorough else 300)
     ncirc = timed('circuits', part_circuits, ck, 5000 if thorough else 64, 18)
     ck.coverage['phase_seconds'] = phases
@@ -1535,7 +1982,13 @@ def _run(ck: Check):
         'id() walk for shared mutable objects and by a battery of edits on '
         'one side; the __reduce__ payload, rebuild_circuit (valid and '
         'malformed payloads), PassData become/copy/update/setitem/getitem '
-        'and update_error_mul are also replayed through the Lean model; a '
+        'and update_error_mul are also replayed through the Lean model; '
+        'equality/hash: every re-listing / round trip of coupling graphs, '
+        'circuit gates and circuits must be ==, hash equal and the same dict '
+        'key, prefixes / extensions / other sizes must differ, verdicts also '
+        'from the model of the fixed __eq__/__hash__; sharing: 17 circuit-to-'
+        'circuit calls and 9 in-process pass pipelines checked for shared '
+        'Operations and leaking edits; a '
         'circuit counts as non-trivial with more than 6 operations')
     signal.alarm(0)
     if not proved:
@@ -1546,10 +1999,12 @@ def _run(ck: Check):
             {'broken': 'BqVerif.Props.C16', 'log': ck.proof_failure},
             found_input=False)
     ck.assumptions += [
-        'C16_reduce_rebuild_dag assumes iterOkB c c.iterKahn (the DAG '
-        'iterator yields non-decreasing cycle indices and every operation '
-        'once - C05\'s iter_kahn_eq_rowmajor); the driver evaluates this '
-        'hypothesis on every circuit of the workload',
+        'C16_reduce_rebuild_dag assumes kahnCovers c (the DAG iterator '
+        'yields every operation of cycle k with index k, once; that the '
+        'indices are non-decreasing and in range is proved, C16_kahn_order); '
+        'C16_reduce_rebuild_dag_of_rowmajor derives it from iterKahn = '
+        'iterCyc (C05\'s iter_kahn_eq_rowmajor, in progress); the driver '
+        'evaluates the hypothesis on every circuit of the workload',
         'clause (d) "shares no mutable state" is a heap property: decided by '
         'the harness (id() walk + edits), not by the record model; the Lean '
         'tables only check that every copy()/become(deepcopy=True) assignment '
